@@ -217,9 +217,16 @@ fn mock_port() -> u16 {
                                 }
                             }
                         }
-                        let body = b"CDN-BODY";
+                        // the body names the object that was asked for, so that two objects never have the same bytes
+                        let line = String::from_utf8_lossy(&req).lines().next().unwrap_or("").to_string();
+                        let body = format!("BODY:{}", line.split(' ').nth(1).unwrap_or("?")).into_bytes();
+                        if line.starts_with("HEAD") {
+                            let _ = write!(s, "HTTP/1.1 200 OK\r\nContent-Length: {}\r\n\r\n", body.len());
+                            let _ = s.flush();
+                            continue;
+                        }
                         let _ = write!(s, "HTTP/1.1 200 OK\r\nContent-Length: {}\r\nContent-Type: application/octet-stream\r\n\r\n", body.len());
-                        let _ = s.write_all(body);
+                        let _ = s.write_all(&body);
                         let _ = s.flush();
                     }
                 });
@@ -310,6 +317,58 @@ fn run_program(prog: &Value, em: &Emit, rt: &tokio::runtime::Runtime) {
             ev["decoy_read"] = json!(decoy_read);
             ev["values_ok"] = json!(values_ok);
         }
+        "cdn.objects" | "cdn.archive_name" => {
+            let before = sb.listing();
+            let cfg = cascette_protocol::CacheConfig { cache_dir: if prog["disk"].as_bool().unwrap_or(true) { Some(sb.root.clone()) } else { None }, ..Default::default() };
+            let cache = std::sync::Arc::new(cascette_protocol::cache::ProtocolCache::new(&cfg).expect("protocol cache"));
+            let client = cascette_protocol::CdnClient::new(cache, cascette_protocol::CdnConfig::default()).expect("cdn client");
+            let endpoint = cascette_protocol::CdnEndpoint {
+                host: format!("127.0.0.1:{}", mock_port()),
+                path: "tpr/wow".to_string(),
+                product_path: None,
+                scheme: Some("http".into()),
+                is_fallback: false,
+                strict: false,
+                max_hosts: None,
+            };
+            let mut steps = vec![];
+            let mut objects = vec![];
+            if base_api == "cdn.objects" {
+                // every kind of object of ONE hash, twice (second round from the cache): kinds must not share bytes
+                let key: Vec<u8> = (0..16).map(|i| 0x10 + i as u8).collect();
+                let hexk = hex(&key);
+                for round in 0..2 {
+                    for kind in ["data", "index", "config", "patch"] {
+                        let r = guarded(|| {
+                            rt.block_on(async {
+                                match kind {
+                                    "data" => client.download(&endpoint, cascette_protocol::ContentType::Data, &key).await,
+                                    "config" => client.download(&endpoint, cascette_protocol::ContentType::Config, &key).await,
+                                    "patch" => client.download(&endpoint, cascette_protocol::ContentType::Patch, &key).await,
+                                    _ => client.download_archive_index(&endpoint, &hexk).await,
+                                }
+                            })
+                        });
+                        let (o, got) = outcome(r);
+                        steps.push(json!({"op": kind, "outcome": o}));
+                        if let Some(b) = got {
+                            objects.push(json!({"kind": kind, "round": round, "digest": md5hex(&b)}));
+                        }
+                    }
+                }
+            } else {
+                let name = String::from_utf8(::hex::decode(prog["name_hex"].as_str().unwrap()).unwrap()).unwrap();
+                let (o, _) = outcome(guarded(|| rt.block_on(client.download_archive_index(&endpoint, &name))));
+                steps.push(json!({"op": "download_archive_index", "outcome": o}));
+                let (o, _) = outcome(guarded(|| rt.block_on(client.get_index_size(&endpoint, &name))));
+                steps.push(json!({"op": "get_index_size", "outcome": o}));
+            }
+            ev["objects"] = json!(objects);
+            ev["decoy_read"] = json!(false);
+            ev["values_ok"] = json!(true);
+            ev["steps"] = json!(steps);
+            ev["touched"] = json!(sb.diff(&before, &sb.listing()));
+        }
         "cdn.path" | "cdn.keylen" | "cdn.range" => {
             let before = sb.listing();
             let cfg = cascette_protocol::CacheConfig { cache_dir: Some(sb.root.clone()), ..Default::default() };
@@ -337,7 +396,7 @@ fn run_program(prog: &Value, em: &Emit, rt: &tokio::runtime::Runtime) {
                     let (o, got) = outcome(guarded(|| rt.block_on(client.download(&endpoint, cascette_protocol::ContentType::Config, &key))));
                     let res = match got {
                         Some(b) if b == DECOY => "decoy",
-                        Some(b) if b == b"CDN-BODY" => "own",
+                        Some(b) if b.starts_with(b"BODY:") => "own",
                         Some(_) => "other",
                         None => "-",
                     };
